@@ -159,6 +159,18 @@ func Glue(s *abs.Schema, importPath string, o GlueOpts) string {
 		p("\tContentType string")
 		p("\tHeaders     [][2]string")
 		p("\tHelpers     [][2]string // typed call-header helper name, value")
+		p("\tReuse       bool        // reuse one option value per (service, option, argument): a caller may keep an option and pass it to many calls")
+		p("}")
+		p("var glueOptMu sync.Mutex")
+		p("var glueOpts = map[string]any{}")
+		p("func glueOpt[T any](reuse bool, key string, mk func() T) T {")
+		p("\tif !reuse {\n\t\treturn mk()\n\t}")
+		p("\tglueOptMu.Lock()")
+		p("\tdefer glueOptMu.Unlock()")
+		p("\tif v, ok := glueOpts[key]; ok {\n\t\treturn v.(T)\n\t}")
+		p("\tv := mk()")
+		p("\tglueOpts[key] = v")
+		p("\treturn v")
 		p("}")
 		p("")
 		p("// GlueCall performs one RPC through the generated client.")
@@ -198,12 +210,12 @@ func Glue(s *abs.Schema, importPath string, o GlueOpts) string {
 			p("\t\t\tglueSharedMu.Unlock()")
 			p("\t\t} else {\n\t\t\tc = New%sClient(baseURL, opts...)\n\t\t}", sn)
 			p("\t\tvar copts []%sCallOption", sn)
-			p("\t\tif call.ContentType != \"\" {\n\t\t\tcopts = append(copts, With%sCallContentType(call.ContentType))\n\t\t}", sn)
-			p("\t\tfor _, h := range call.Headers {\n\t\t\tcopts = append(copts, With%sHeader(h[0], h[1]))\n\t\t}", sn)
+			p("\t\tif call.ContentType != \"\" {\n\t\t\tcopts = append(copts, glueOpt(call.Reuse, svc+\"|ct|\"+call.ContentType, func() %sCallOption { return With%sCallContentType(call.ContentType) }))\n\t\t}", sn, sn)
+			p("\t\tfor _, h := range call.Headers {\n\t\t\tcopts = append(copts, glueOpt(call.Reuse, svc+\"|h|\"+h[0]+\"|\"+h[1], func() %sCallOption { return With%sHeader(h[0], h[1]) }))\n\t\t}", sn, sn)
 			if len(helperCall) > 0 {
 				p("\t\tfor _, h := range call.Helpers {\n\t\t\tswitch h[0] {")
 				for _, hn := range sortedKeys(helperCall) {
-					p("\t\t\tcase %q:\n\t\t\t\tcopts = append(copts, %s(h[1]))", hn, helperCall[hn])
+					p("\t\t\tcase %q:\n\t\t\t\tcopts = append(copts, glueOpt(call.Reuse, svc+\"|t|\"+h[0]+\"|\"+h[1], func() %sCallOption { return %s(h[1]) }))", hn, sn, helperCall[hn])
 				}
 				p("\t\t\t}\n\t\t}")
 			}
